@@ -398,7 +398,23 @@ func (store *KeyStore) WriteKeyFile(filename string, data []byte, mode os.FileMo
 	if err != nil {
 		return err
 	}
-	err = store.fs.WriteFile(tmpFilename, data, mode)
+	err = store.replaceKeyFile(tmpFilename, filename, data, mode)
+	if err != nil {
+		// Do not leave the temporary file in the key directory when the update fails.
+		if removeErr := store.fs.Remove(tmpFilename); removeErr != nil && !os.IsNotExist(removeErr) {
+			log.WithError(removeErr).WithField("path", tmpFilename).Warn("Can't remove temporary key file")
+		}
+		return err
+	}
+	// the previous version has just been moved into the history directory
+	store.purgeCachedHistoricalFilenames(filename)
+	return nil
+}
+
+// replaceKeyFile fills the temporary file, keeps the current version of the key file
+// in its history directory and moves the temporary file over the key file.
+func (store *KeyStore) replaceKeyFile(tmpFilename, filename string, data []byte, mode os.FileMode) error {
+	err := store.fs.WriteFile(tmpFilename, data, mode)
 	if err != nil {
 		return err
 	}
@@ -406,13 +422,19 @@ func (store *KeyStore) WriteKeyFile(filename string, data []byte, mode os.FileMo
 	if err != nil {
 		return err
 	}
-	err = store.fs.Rename(tmpFilename, filename)
-	if err != nil {
-		return err
+	return store.fs.Rename(tmpFilename, filename)
+}
+
+// isTemporaryKeyFileName tells whether the name has the form "<key file name><decimal digits>"
+// which Storage.TempFile() gives to the temporary files of WriteKeyFile(). Such a file stays
+// in the key directory if the process is stopped in the middle of a key update.
+func isTemporaryKeyFileName(name string) bool {
+	keyFileName := strings.TrimRight(name, "0123456789")
+	if keyFileName == name || keyFileName == "" {
+		return false
 	}
-	// the previous version has just been moved into the history directory
-	store.purgeCachedHistoricalFilenames(filename)
-	return nil
+	_, err := DescribeKeyFile(keyFileName)
+	return err == nil
 }
 
 func (store *KeyStore) backupHistoricalKeyFile(filename string) error {
@@ -806,6 +828,10 @@ func (store *KeyStore) describeDir(dirName string) ([]keystore.KeyDescription, e
 
 		description, err := DescribeKeyFile(fileInfo.Name())
 		if err != nil {
+			if err == ErrUnrecognizedKeyPurpose && !fileInfo.IsDir() && isTemporaryKeyFileName(fileInfo.Name()) {
+				log.WithField("file", fileInfo.Name()).Warn("Ignoring temporary file of an interrupted key update")
+				continue
+			}
 			return nil, err
 		}
 		if description.Purpose == keystore.PurposeLegacy {
